@@ -17,6 +17,7 @@
     - C02_select_first_match, C02_chained_compare_is_conjunction, C02_concat_msb_left, C02_shift_right_kind. *)
 From Coq Require Import ZArith NArith List Bool Lia.
 From Cohdl Require Import Base.Bits Vhdl.Value Vhdl.NumStd Equiv.RefTS Models.ExprRef Models.ExprRefProofs.
+From Cohdl Require Import Vhdl.Syntax Vhdl.Sem Models.ExprEmit Models.ExprEmitProofs.
 Import ListNotations.
 Local Open Scope Z_scope.
 
@@ -199,3 +200,67 @@ Example C02_shift_right_signed_is_not_logical :
   sval 3 (pat KS 3 (-4) / 2) = 2.
 Proof. exact shift_right_signed_is_not_logical. Qed.
 Print Assumptions C02_shift_right_signed_is_not_logical.
+
+(** ** ALL EXPRESSION TREES: the expression the back end PRINTS (Models/ExprEmit.emit, a model of
+    backend/vhdl/_vhdl_repr.py as coded, tied to the compiler by harness/c02_emit.py: syntactic equality with the
+    emitted text of every generated expression) evaluates, under Vhdl.Sem / Vhdl.NumStd, to the documented value
+    (ExprRef.xeval) - by induction on the tree, for all widths and all operand values.
+    FULL STATEMENT: forall e ex t, emit pos e = Some ex -> tyof e = Some t -> in_emit_grammar e = true ->
+      defined (xeval en e) = true -> store_matches pos en sg -> eval sg vr ev ex = Ok (to_value (xeval en e)).
+    PROVED PART ([proved_part]): input ports of every non-Integer type, constants / int literals as operands, views,
+    constant indices, slices (nested: folded), ~ - abs not, all six comparisons on every operand kind (int literal on
+    either side, the operand swap, a negative literal against an Unsigned), + - * / mod rem on two Unsigned / two Signed
+    operands of any widths, << >> by an int literal or by an Unsigned count.  MISSING: arithmetic with an int literal
+    operand, & | ^, concatenation, resize (in [emit] and in the tie; agreement proved per operator above and per design). *)
+Theorem C02_emit_correct_partial : forall pos en sg vr ev, store_matches pos en sg -> forall e ex t,
+  emit pos e = Some ex -> tyof e = Some t -> in_emit_grammar e = true -> proved_part e = true ->
+  defined (xeval en e) = true -> eval sg vr ev ex = Ok (to_value (xeval en e)).
+Proof. exact emit_correct_partial. Qed.
+Print Assumptions C02_emit_correct_partial.
+
+Example C02_emit_correct_nonvacuous :
+  store_matches ex_pos ex_en ex_sg /\
+  (forall e, In e [ex_e1; ex_e2] ->
+     (exists ex, emit ex_pos e = Some ex) /\ tyof e = Some (Ty KBool 1) /\ in_emit_grammar e = true /\
+     proved_part e = true /\ defined (xeval ex_en e) = true) /\
+  emit ex_pos ex_e1 =
+    Some (EBin OGt (EBin OMul (EBin OAdd (EF1 FConvUns (EF1 FConvSlv (EF1 FConvSgn (ESlice (ESig 1) 1 0)))) (ESig 2)) (ESig 2))
+               (ELit (VI 2))) /\
+  xeval ex_en ex_e1 = TV KBool 1 0 /\ xeval ex_en ex_e2 = TV KBool 1 0.
+Proof. exact emit_correct_nonvacuous. Qed.
+Print Assumptions C02_emit_correct_nonvacuous.
+
+(** format_value: whatever reference the front end built (root object, folded static slice / index, view), the printed
+    conversion chain evaluates to the value the reference denotes *)
+Theorem C02_emit_format_value_correct : forall sg vr ev o v, den sg vr ev o v -> eval sg vr ev (fmt o) = Ok (to_value v).
+Proof. exact fmt_ok. Qed.
+Print Assumptions C02_emit_format_value_correct.
+
+(** every comparison the documented typing admits, on every pair of operand kinds *)
+Theorem C02_emit_compare_agrees_all_kinds : forall op ka wa za kb wb zb',
+  cmp_ok op (Ty ka wa) (Ty kb wb) = true -> rng ka wa za -> rng kb wb zb' ->
+  (ka = KInt -> kb = KU -> 0 <= za <= int_max) -> (kb = KInt -> ka = KU -> 0 <= zb' <= int_max) ->
+  eval_binop (cmp_binop op) (scalar_value ka wa za) (scalar_value kb wb zb') = Ok (VB (cmp_val op za zb')).
+Proof. exact compare_agree. Qed.
+Print Assumptions C02_emit_compare_agrees_all_kinds.
+
+Example C02_emit_compare_nonvacuous : cmp_ok CLe (Ty KInt 0) (Ty KU 3) = true /\ rng KInt 0 7 /\ rng KU 3 7 /\
+  cmp_val CLe 7 7 = true.
+Proof. vm_compute. auto. Qed.
+Print Assumptions C02_emit_compare_nonvacuous.
+
+(** an int literal as the right operand of + - * / mod rem (Unsigned and Signed; covers "Signed/int mixed arithmetic" and
+    "division with an int operand" listed as per-design-only in the header) *)
+Theorem C02_emit_arith_int_literal_right : forall op o k w a z v,
+  arith_op op = Some o -> (k = KU \/ k = KS) -> rng k w a -> arith_lit_ok op k w z = true ->
+  bin_val op k w a KInt 0 z = Some v ->
+  eval_binop o (scalar_value k w a) (VI (adjz op k w z))
+  = Ok (scalar_value k (arith_width_int op w) (norm k (arith_width_int op w) v)).
+Proof. exact arith_lit_right. Qed.
+Print Assumptions C02_emit_arith_int_literal_right.
+
+Example C02_emit_arith_int_literal_nonvacuous :
+  rng KU 3 5 /\ arith_lit_ok BSub KU 3 (-2) = true /\ adjz BSub KU 3 (-2) = 6 /\ bin_val BSub KU 3 5 KInt 0 (-2) = Some 7 /\
+  rng KS 3 (-4) /\ arith_lit_ok BTruncDiv KS 3 3 = true /\ bin_val BTruncDiv KS 3 (-4) KInt 0 3 = Some (-1).
+Proof. vm_compute. auto 10. Qed.
+Print Assumptions C02_emit_arith_int_literal_nonvacuous.
